@@ -29,11 +29,10 @@ Proof.
   rewrite A, B, C. reflexivity.
 Qed.
 
-Theorem builder_canonical_st builtin ops :
-  snd (bcreate_st (fold_left bapply ops (new_builder builtin)))
-  = snd (bcreate_st (canonical_builder builtin (files_of ops) (overrides_of ops []) (language_of ops None)))
-  /\ b_sections (fst (bcreate_st (fold_left bapply ops (new_builder builtin))))
-     = b_sections (fst (bcreate_st (canonical_builder builtin (files_of ops) (overrides_of ops []) (language_of ops None)))).
+Theorem builder_canonical_st detach builtin ops :
+  let r1 := bcreate_st detach (fold_left bapply ops (new_builder builtin)) in
+  let r2 := bcreate_st detach (canonical_builder builtin (files_of ops) (overrides_of ops []) (language_of ops None)) in
+  snd r1 = snd r2 /\ snd (fst r1) = snd (fst r2) /\ b_sections (fst (fst r1)) = b_sections (fst (fst r2)).
 Proof.
   pose proof (builder_canonical builtin ops) as E.
   destruct (brun_fields ops (new_builder builtin)) as (A & B & C).
@@ -41,9 +40,9 @@ Proof.
   unfold resolve_language, canonical_builder. cbn [b_sections b_lang b_over new_builder] in *.
   rewrite B, C.
   set (cb := bcreate _).
-  destruct cb as [s|]; [|split; [reflexivity | cbn; exact A]].
-  destruct (match language_of ops None with Some l => Some l | None => _ end) as [l|]; [|split; [reflexivity | cbn; exact A]].
-  destruct (language_init _ _ _) as [o s']; split; reflexivity.
+  destruct cb as [s|]; [|cbn; auto].
+  destruct (match language_of ops None with Some l => Some l | None => _ end) as [l|]; [|cbn; auto].
+  destruct (language_init _ _ _) as [o s']. cbn. auto.
 Qed.
 
 Lemma overrides_nodup ops : forall init, dnodup init = true -> dnodup (overrides_of ops init) = true.
@@ -270,6 +269,7 @@ Proof. vm_compute. reflexivity. Qed.
 
 (* ---- several builders in one process -------------------------------------------------------------- *)
 Local Open Scope nat_scope.
+
 Lemma upd_nth_length {A} (f : A -> A) l : forall i, length (upd_nth i f l) = length l.
 Proof. induction l as [|x l IH]; intros [|i]; cbn; auto. Qed.
 
@@ -278,34 +278,95 @@ Proof.
   induction l as [|x l IH]; intros [|i] [|j] H; cbn; auto; try congruence.
 Qed.
 
-Lemma papply_length builtin p o : length p <= length (papply builtin p o).
+Lemma papply_builders_len detach builtin p o : length (p_builders p) <= length (p_builders (papply detach builtin p o)).
 Proof.
-  destruct o; cbn [papply]; rewrite ?upd_nth_length, ?app_length; cbn; lia.
+  destruct o as [|j op|j]; cbn [papply p_builders]; rewrite ?upd_nth_length, ?app_length; cbn; try lia.
+  destruct (nth_error (p_builders p) j); [|lia].
+  destruct (bcreate_st detach b) as [[b' cs] oo]. cbn [p_builders]. rewrite upd_nth_length. lia.
 Qed.
 
-Lemma papply_other builtin p o i :
-  i < length p -> pop_touches i o = false -> ctx_report (papply builtin p o) i = ctx_report p i.
+Lemma papply_builder_other detach builtin p o i :
+  i < length (p_builders p) -> pop_touches i o = false ->
+  nth_error (p_builders (papply detach builtin p o)) i = nth_error (p_builders p) i.
 Proof.
-  intros Hi Ht. unfold ctx_report. f_equal.
-  destruct o as [|j op|j]; cbn [papply pop_touches] in *.
+  intros Hi Ht. destruct o as [|j op|j]; cbn [papply pop_touches p_builders] in *.
   - apply nth_error_app1, Hi.
   - apply upd_nth_other. intro E; subst. rewrite Nat.eqb_refl in Ht. discriminate.
-  - apply upd_nth_other. intro E; subst. rewrite Nat.eqb_refl in Ht. discriminate.
+  - destruct (nth_error (p_builders p) j); [|reflexivity].
+    destruct (bcreate_st detach b) as [[b' cs] oo]. cbn [p_builders].
+    apply upd_nth_other. intro E; subst. rewrite Nat.eqb_refl in Ht. discriminate.
 Qed.
 
-(* whatever is done with OTHER builders (created before or after), a context keeps reporting the same *)
-Theorem earlier_context_stable builtin ops : forall p i,
-  i < length p -> forallb (fun o => negb (pop_touches i o)) ops = true ->
-  ctx_report (prun builtin ops p) i = ctx_report p i.
+(* contexts are only ever appended *)
+Lemma papply_ctx_nth detach builtin p o c x :
+  nth_error (p_ctxs p) c = Some x -> nth_error (p_ctxs (papply detach builtin p o)) c = Some x.
 Proof.
-  unfold prun. induction ops as [|o ops IH]; intros p i Hi H; [reflexivity|].
-  cbn [fold_left forallb] in *. apply andb_true_iff in H as [H1 H2]. apply negb_true_iff in H1.
-  rewrite IH; [apply papply_other; assumption | | exact H2].
-  pose proof (papply_length builtin p o). lia.
+  intros H. destruct o as [|j op|j]; cbn [papply p_ctxs]; try exact H.
+  destruct (nth_error (p_builders p) j); [|exact H].
+  destruct (bcreate_st detach b) as [[b' cs] oo]. cbn [p_ctxs].
+  destruct cs; [destruct oo|]; try exact H.
+  rewrite nth_error_app1; [exact H | apply nth_error_Some; congruence].
+Qed.
+
+(* whatever is done with OTHER builders (created before or after), a context keeps reporting the same; a context that
+   holds its own copy keeps reporting the same whatever is done at all *)
+Theorem earlier_context_stable detach builtin ops : forall p c,
+  ops_spare_ctx p c ops = true ->
+  ctx_report (prun detach builtin ops p) c = ctx_report p c.
+Proof.
+  unfold prun. induction ops as [|o ops IH]; intros p c H; [reflexivity|].
+  cbn [fold_left]. unfold ops_spare_ctx in H.
+  destruct (nth_error (p_ctxs p) c) as [[i|s]|] eqn:G; [| |discriminate].
+  - cbn [forallb] in H. apply andb_true_iff in H as [Hi H]. apply andb_true_iff in H as [H1 H2].
+    apply Nat.ltb_lt in Hi. apply negb_true_iff in H1.
+    pose proof (papply_ctx_nth detach builtin p o c _ G) as G'.
+    rewrite IH.
+    + unfold ctx_report. rewrite G, G'. f_equal. apply papply_builder_other; assumption.
+    + unfold ops_spare_ctx. rewrite G', H2, andb_true_r. apply Nat.ltb_lt.
+      pose proof (papply_builders_len detach builtin p o). lia.
+  - pose proof (papply_ctx_nth detach builtin p o c _ G) as G'.
+    rewrite IH.
+    + unfold ctx_report. rewrite G, G'. reflexivity.
+    + unfold ops_spare_ctx. rewrite G'. reflexivity.
+Qed.
+
+Lemma all_own_nth cs c : all_own cs = true -> c < length cs -> exists s, nth_error cs c = Some (CtxOwn s).
+Proof.
+  unfold all_own. revert c. induction cs as [|x cs IH]; intros c H L; [cbn in L; lia|].
+  cbn [forallb] in H. apply andb_true_iff in H as [H1 H2].
+  destruct c; cbn [nth_error].
+  - destruct x; [discriminate | eauto].
+  - apply IH; [exact H2 | cbn in L; lia].
+Qed.
+
+Lemma papply_all_own builtin p o : all_own (p_ctxs p) = true -> all_own (p_ctxs (papply true builtin p o)) = true.
+Proof.
+  intros H. destruct o as [|j op|j]; cbn [papply p_ctxs]; try exact H.
+  destruct (nth_error (p_builders p) j); [|exact H].
+  destruct (bcreate_st true b) as [[b' cs] oo]. cbn [p_ctxs].
+  destruct cs; [destruct oo|]; try exact H.
+  unfold all_own in *. rewrite forallb_app, H. reflexivity.
+Qed.
+
+Lemma prun_all_own builtin ops : forall p, all_own (p_ctxs p) = true -> all_own (p_ctxs (prun true builtin ops p)) = true.
+Proof.
+  unfold prun. induction ops as [|o ops IH]; intros p H; [exact H|].
+  cbn [fold_left]. apply IH, papply_all_own, H.
+Qed.
+
+(* when create() detaches the configuration: NOTHING done later in the process (same builder included) changes what a
+   context created earlier reports *)
+Theorem context_stable_when_detached builtin ops1 ops2 c :
+  c < length (p_ctxs (prun true builtin ops1 empty_proc)) ->
+  ctx_report (prun true builtin ops2 (prun true builtin ops1 empty_proc)) c = ctx_report (prun true builtin ops1 empty_proc) c.
+Proof.
+  intros L. apply earlier_context_stable. unfold ops_spare_ctx.
+  destruct (all_own_nth _ c (prun_all_own builtin ops1 empty_proc eq_refl) L) as [s ->]. reflexivity.
 Qed.
 
 Local Close Scope nat_scope.
-(* re-using ONE builder: a second create() with another override changes what the first context reports *)
+(* when the context shares the builder's LanguageConfig: a second create() with another override changes what the first
+   context reports (F-CFG-REUSE) *)
 Definition reuse_builtin : list (list N * cv) :=
   [([110; 117; 110; 97; 118; 117; 116; 46; 108; 97; 110; 103; 46; 99],        (* nunavut.lang.c *)
     Node [(key_options, Node [([101], Leaf false (AStr [97]))])])].            (* options: {e: "a"} *)
@@ -317,10 +378,23 @@ Definition reuse_ops2 : list pop :=
   [POp 0 (SetOverride key_options (Some (Node [([101], Leaf false (AStr [99]))]))); PCreate 0].
 
 Theorem builder_reuse_refuted :
-  exists builtin ops1 ops2 i,
-    (i < length (prun builtin ops1 []))%nat /\
-    ctx_report (prun builtin ops2 (prun builtin ops1 [])) i <> ctx_report (prun builtin ops1 []) i.
+  exists builtin ops1 ops2 c,
+    (c < length (p_ctxs (prun false builtin ops1 empty_proc)))%nat /\
+    ctx_report (prun false builtin ops2 (prun false builtin ops1 empty_proc)) c <> ctx_report (prun false builtin ops1 empty_proc) c.
 Proof.
   exists reuse_builtin, reuse_ops1, reuse_ops2, 0%nat. split; [vm_compute; lia|].
   vm_compute. discriminate.
 Qed.
+
+(* the statement that is live for the code as it is now (flag regenerated from LanguageContextBuilder.create) *)
+Definition context_stability_statement (detach : bool) : Prop :=
+  if detach
+  then forall builtin ops1 ops2 c,
+         (c < length (p_ctxs (prun detach builtin ops1 empty_proc)))%nat ->
+         ctx_report (prun detach builtin ops2 (prun detach builtin ops1 empty_proc)) c = ctx_report (prun detach builtin ops1 empty_proc) c
+  else exists builtin ops1 ops2 c,
+         (c < length (p_ctxs (prun detach builtin ops1 empty_proc)))%nat /\
+         ctx_report (prun detach builtin ops2 (prun detach builtin ops1 empty_proc)) c <> ctx_report (prun detach builtin ops1 empty_proc) c.
+
+Theorem context_stability_all detach : context_stability_statement detach.
+Proof. destruct detach; [exact context_stable_when_detached | exact builder_reuse_refuted]. Qed.
